@@ -13,7 +13,7 @@ def main():
         r = wv.tlc(m, workers=1, timeout=600)
         if r["rc"] != 0 or "No error has been found" not in r["out"]:
             print(r["out"][-3000:]); print("ERROR setup: %s failed" % m); bad += 1
-    for pm in ("ChunkingProofs", "MDProofs"):
+    for pm in ("ChunkingProofs", "MDProofs", "Base64Proofs"):
         try:
             n, ok = wv.tlapm(pm)
             if n != ok:
